@@ -19,6 +19,9 @@ package nbs
 import (
 	"bytes"
 	"context"
+	"errors"
+	"os"
+	"path/filepath"
 	"sync"
 
 	"golang.org/x/sync/errgroup"
@@ -125,11 +128,95 @@ func (t *VerifC10Table) ResolveShortHash(short []byte) (res []string, ok bool, e
 	return nil, false, nil
 }
 
+// HasMany is chunkReader.hasMany over |hs| sorted by prefix (as NomsBlockStore.HasMany does).
+func (t *VerifC10Table) HasMany(hs []hash.Hash) (present []bool, remaining bool, err error) {
+	recs := make([]hasRecord, len(hs))
+	for i := range hs {
+		recs[i] = hasRecord{a: &hs[i], prefix: hs[i].Prefix(), order: i}
+	}
+	sortHasRecordsByPrefix(recs)
+	remaining, _, err = t.cs.hasMany(recs, nil)
+	present = make([]bool, len(hs))
+	for _, r := range recs {
+		present[r.order] = r.has
+	}
+	return present, remaining, err
+}
+
+// TolerantIterateAll is chunkSource.tolerantIterateAllChunks; returns the number of errors reported.
+func (t *VerifC10Table) TolerantIterateAll(ctx context.Context, cb func(h hash.Hash, data []byte)) (nerr int) {
+	t.cs.tolerantIterateAllChunks(ctx, func(c chunks.Chunk) {
+		cb(c.Hash(), c.Data())
+	}, func(error) { nerr++ }, &Stats{})
+	return nerr
+}
+
+// Extract is tableReader.extract (ok=false when the chunk source is not a table file reader).
+func (t *VerifC10Table) Extract(ctx context.Context, cb func(h hash.Hash, data []byte)) (ok bool, err error) {
+	ftr, isTable := t.cs.(*fileTableReader)
+	if !isTable {
+		return false, nil
+	}
+	ch := make(chan extractRecord, 1024)
+	done := make(chan struct{})
+	go func() {
+		defer close(done)
+		for r := range ch {
+			cb(r.a, r.data)
+		}
+	}()
+	err = ftr.extract(ctx, ch)
+	close(ch)
+	<-done
+	return true, err
+}
+
+// VerifC10BuildArchive writes |chunkData| through the ArchiveStreamWriter into |dir| and returns the
+// archive's name (file |dir|/name.darc), its bytes and the chunk addresses in input order.
+func VerifC10BuildArchive(dir string, chunkData [][]byte) (name hash.Hash, data []byte, addrs []hash.Hash, err error) {
+	asw, err := NewArchiveStreamWriter(dir)
+	if err != nil {
+		return hash.Hash{}, nil, nil, err
+	}
+	for _, d := range chunkData {
+		c := chunks.NewChunk(d)
+		addrs = append(addrs, c.Hash())
+		if _, err = asw.AddChunk(ChunkToCompressedChunk(c)); err != nil {
+			return hash.Hash{}, nil, nil, err
+		}
+	}
+	_, fname, err := asw.Finish()
+	if err != nil {
+		return hash.Hash{}, nil, nil, err
+	}
+	full := filepath.Join(dir, fname)
+	if err = asw.FlushToFile(full); err != nil {
+		return hash.Hash{}, nil, nil, err
+	}
+	if len(fname) < hash.StringLen {
+		return hash.Hash{}, nil, nil, errors.New("bad archive name " + fname)
+	}
+	h, ok := hash.MaybeParse(fname[:hash.StringLen])
+	if !ok {
+		return hash.Hash{}, nil, nil, errors.New("bad archive name " + fname)
+	}
+	data, err = os.ReadFile(full)
+	return h, data, addrs, err
+}
+
 // Count is chunkReader.count.
 func (t *VerifC10Table) Count() uint32 { return t.cs.count() }
 
 // Close is chunkReader.close.
 func (t *VerifC10Table) Close() error { return t.cs.close() }
+
+func sortHasRecordsByPrefix(recs []hasRecord) {
+	for i := 1; i < len(recs); i++ {
+		for j := i; j > 0 && recs[j].prefix < recs[j-1].prefix; j-- {
+			recs[j], recs[j-1] = recs[j-1], recs[j]
+		}
+	}
+}
 
 // VerifC10Crc is crc().
 func VerifC10Crc(b []byte) uint32 { return crc(b) }
